@@ -50,6 +50,8 @@ type pssSub struct {
 	acked     bool // its Wait for the in-flight message has returned
 	bodyEvent chan int
 	round     int
+	seq       func(func(int) bool) // the iterator of a subscription whose iterator is never run (properly)
+	nilCalled bool
 }
 
 type pssMachine struct {
@@ -222,6 +224,7 @@ func (m *pssMachine) startIter(s *pssSub, ctx context.Context) {
 	seq := x.SubscribeContext(ctx)
 	if s.kind == "iter-never-run" {
 		s.state = "dormant"
+		s.seq = seq
 		return
 	}
 	s.state = "receiving"
@@ -377,7 +380,7 @@ func (m *pssMachine) step() {
 	m.settle()
 	m.checkPhases()
 	if n := m.x.Add(0); n != m.subscribed() {
-		m.fail("C07/count", "Add(0)=%d, model has %d subscriptions", n, m.subscribed())
+		m.fail("C07+C06/count", "Add(0)=%d, model has %d subscriptions", n, m.subscribed())
 	}
 }
 
@@ -647,6 +650,32 @@ func (m *pssMachine) ruleGatedLeave(t *rapid.T) {
 	m.step()
 }
 
+// ruleNilYield: the iterator of a subscription is invoked with a nil yield function. That panics (documented), and
+// the subscription is withdrawn exactly once overall: by this call if nothing withdrew it before, not again if its
+// context had already been cancelled.
+func (m *pssMachine) ruleNilYield(t *rapid.T) {
+	if m.inDelivery() {
+		t.Skip("delivery in progress") // the unsubscribe of a counted subscription would have to absorb a copy
+	}
+	s := m.pick("nilYield", func(s *pssSub) bool { return s.seq != nil && !s.nilCalled })
+	if s == nil {
+		t.Skip("no never-run iterator")
+	}
+	s.nilCalled = true
+	seq := s.seq
+	_, pv := vkit.Call(func() any { seq(nil); return nil })
+	if pv == nil {
+		m.fail("C07/nil-yield-accepted", "the iterator accepted a nil yield function")
+	}
+	was := s.state
+	if s.state == "dormant" {
+		s.state = "left"
+		s.cancel()
+	}
+	m.tr("iter%d(nil yield, was %s)", s.id, was)
+	m.step()
+}
+
 func (m *pssMachine) ruleSend(t *rapid.T) {
 	if m.sending() {
 		t.Skip("send in flight")
@@ -706,6 +735,7 @@ func TestPubSubStep(t *testing.T) {
 			add("leave", 2, m.ruleLeave)
 			add("send", 3, m.ruleSend)
 			add("gatedLeave", 2, m.ruleGatedLeave)
+			add("nilYield", 1, m.ruleNilYield)
 			add("advance", 1, func(t *rapid.T) { // time passes while nothing else happens: ChanPubSub has no notion of time
 				d := rapid.SampledFrom([]time.Duration{time.Millisecond, 3 * time.Second, 24 * time.Hour}).Draw(t, "advance")
 				time.Sleep(d)
